@@ -447,6 +447,7 @@ func c14Gen(r *hx.Rng, n int, tier string) []string {
 	sites = append(sites, directedDeriver(pstep)...)
 	sites = append(sites, directedJSONText()...)
 	sites = append(sites, directedKeySizes()...)
+	sites = append(sites, directedPrefixes()...)
 	lines = append(lines, sites...)
 	n += len(sites) // the random part keeps its size
 	for len(lines) < n {
